@@ -92,7 +92,14 @@ PAIR_SLOTS = {('Case', 'rules')}
 TABLE_SLOTS = {('Select', 'from_table'), ('Join', 'left'), ('Join', 'right'), ('Insert', 'table'), ('Update', 'table'),
                ('Delete', 'table'), ('CreateTable', 'name')}
 TARGET_SLOTS = {('Select', 'targets')}
-PARENT_IS_SELF = ('Select', 'Union', 'Intersect', 'Except', 'Insert', 'Update', 'Delete', 'CreateTable')
+# parent_query: a statement (query, DML, DDL, SHOW, SET, ...) is the parent_query of its own children; clause- and expression-level nodes hand down the
+# parent_query they were given.  The rule is by kind of node, not by the list of classes the walker happens to have a branch for.
+INSIDE_A_STATEMENT = ('Join', 'Operation', 'WindowFunction', 'TypeCast', 'Tuple', 'Case', 'OrderBy', 'CommonTableExpression', 'NativeQuery',
+                      'Identifier', 'Constant', 'Parameter', 'Star', 'Latest', 'Data')
+
+
+def parent_is_self(C):
+    return not any(k.__name__ in INSIDE_A_STATEMENT for k in C.__mro__)
 
 
 def required_slots(C, cen):
@@ -377,7 +384,7 @@ def analyse_class(rep, C, slots, before, printed, aliased, all_fields, finder, o
 
     def ok(oid, clause):
         res.setdefault(oid, (None, clause))
-    pself = cname in PARENT_IS_SELF
+    pself = parent_is_self(C)
     for f in req:
         ok(f'C13.visit.{cname}.{f}', 'child slot visited exactly once when present')
         ok(f'C13.flags.{cname}.{f}', 'is_table / is_target / parent_query as specified for this slot')
@@ -571,7 +578,7 @@ def check_list_replacement(f, sh, child, final, o):
             return None
         return None
     if final == 'unwritten':
-        return f'list slot {f} is not rebuilt from the visit results'
+        return _check_in_place(f, sh, child, o) if sh == 'list' else f'list slot {f} is not rebuilt from the visit results'
     if not isinstance(final, SymSeq) or final.mapped is None:
         return f'list slot {f} ends up as {final!r}, not the element-wise image of the original list'
     src, per_path = final.mapped
@@ -609,6 +616,34 @@ def check_list_replacement(f, sh, child, final, o):
                     return f'rule of {f}: visitor returned {r!r} for {ev.node!r} but the rebuilt rule holds {got!r}'
         elif sh == 'list2':
             pass
+    return None
+
+
+def _check_in_place(f, sh, child, o):
+    """the list itself is kept; what is visited is a field of each element (Select.cte[*].query): the visitor's result must be stored in exactly
+    that field of that element, and nothing written when the visitor keeps the node"""
+    fe = [e for e in o.log if e.kind == 'ForEach' and e.seq is child]
+    if not fe:
+        return f'list slot {f} is not rebuilt from the visit results'
+    ews = getattr(fe[0], 'elem_writes', None)
+    if ews is None or len(ews) != len(fe[0].paths):
+        return f'list slot {f} is not rebuilt from the visit results'
+    for (choices, events), writes in zip(fe[0].paths, ews):
+        vis = [ev for ev in events if ev.kind == 'Visit']
+        if len(vis) != 1:
+            return f'an element of {f} is visited {len(vis)} times'
+        ev = vis[0]
+        r = getattr(ev, 'result', None)
+        lab = getattr(ev.node, 'label', '') or ''
+        if not (lab.count('.') > 1 and not lab.endswith(']')):
+            return f'list slot {f} is not rebuilt from the visit results (its elements are visited, the list is kept)'
+        if r is None:
+            if writes:
+                return f'the visitor kept {lab} but the walker writes {[(getattr(w[0], "label", w[0]), w[1]) for w in writes]}'
+            continue
+        good = [w for w in writes if isinstance(w[0], SymObj) and w[3] is ev.node and w[2] is r]
+        if len(good) != 1 or len(writes) != 1:
+            return f'the visitor replaced {lab} by {r!r} but the walker writes {[(getattr(w[0], "label", w[0]), w[1], w[2]) for w in writes]}'
     return None
 
 
@@ -715,7 +750,7 @@ def make_finder(rep=None):
                                     wg = (C.__name__, field) in TARGET_SLOTS
                                     if bool(kw.get('is_table')) != wt or bool(kw.get('is_target')) != wg:
                                         return {'input': sql, 'dialect': dn, 'fires': True, 'observed': f'{field}: flags {kw.get("is_table")}/{kw.get("is_target")}', 'expected': f'{wt}/{wg}'}
-                                    if C.__name__ in PARENT_IS_SELF and kw.get('parent_query') is not n:
+                                    if parent_is_self(C) and kw.get('parent_query') is not n:
                                         return {'input': sql, 'dialect': dn, 'fires': True, 'observed': f'{field}: parent_query is not the enclosing {C.__name__}', 'expected': 'enclosing statement'}
                 if kind == 'order' and field and '<' in field:
                     a, b = field.split('<')
